@@ -17,7 +17,7 @@ from copsim.seams import RngRecorder
 PROPERTY = 'C09'
 LEVEL = 'exploration'
 TIERS = {
-    'quick': {'runs': 700, 'wall': 70, 'batch': 6},
+    'quick': {'runs': 1400, 'wall': 70, 'batch': 8},
     'thorough': {'runs': 60000, 'wall': 840, 'batch': 8},
 }
 RULE = ('Each run = one Clayton/Frank/Gumbel model (theta assigned from tau on a grid or at '
